@@ -632,7 +632,7 @@ func (f *Frame) havocArg(a SV, t types.Type, st *State, g, where string, readonl
 		}
 	case *types.Slice:
 		h := c.elemHeap(u.Elem())
-		f.x.frameCheck(st, h, "(s.ref "+a.T+")", and(g, "(> (s.cap "+a.T+") 0)"), where)
+		f.x.frameCheck(st, h, "(s.ref "+a.T+")", and(g, "(> (s.len "+a.T+") 0)"), where, c.sOff(a.T), c.simplify("(+ "+c.sOff(a.T)+" "+c.sLen(a.T)+")"))
 		nv := c.freshConst("hv", "(Array Int "+c.sortOf(u.Elem())+")")
 		if w := c.wf(u.Elem(), "(select "+nv+" k!)", st.wm()); w != "true" {
 			c.quant = true
@@ -692,7 +692,67 @@ func (f *Frame) havocCall(in ssa.Instruction, key string, args []SV, cc *ssa.Cal
 }
 
 // applyContract: assert requires, havoc the assigns set, assume ensures.
+// applyContract applies a callee contract at a call site. A pointer argument that addresses the interior of
+// another object (&s.Embedded) has no reference of its own in the heap model: it is passed by copy-in /
+// copy-out through a fresh object (sound when the callee neither retains the pointer nor reaches the same
+// interior through another path; listed as an abstraction).
 func (f *Frame) applyContract(in ssa.Instruction, ct *Contract, fn *ssa.Function, sig *types.Signature, args []SV, cc *ssa.CallCommon, st *State, g string, key string) SV {
+	c := f.c()
+	type cb struct {
+		addr   *Addr
+		ref    string
+		t      types.Type
+		before []string
+	}
+	var cbs []cb
+	var ptl []types.Type
+	if fn != nil {
+		for _, p := range fn.Params {
+			ptl = append(ptl, p.Type())
+		}
+	}
+	args = append([]SV(nil), args...)
+	for i := range args {
+		if args[i].A == nil || args[i].T != "" || i >= len(ptl) {
+			continue
+		}
+		pt, ok := ptl[i].Underlying().(*types.Pointer)
+		if !ok {
+			continue
+		}
+		s, ok := pt.Elem().Underlying().(*types.Struct)
+		if !ok {
+			continue
+		}
+		c.note("abstraction: interior pointer passed to %s by copy-in/copy-out in %s", key, f.fn)
+		r := st.alloc()
+		v := f.loadAddr(st, args[i].A)
+		var before []string
+		for k := 0; k < s.NumFields(); k++ {
+			h := c.fieldHeap(pt.Elem(), k)
+			st.set(h, sto(st.get(h), r, c.projField(pt.Elem(), v, k)))
+			before = append(before, st.get(h))
+		}
+		cbs = append(cbs, cb{args[i].A, r, pt.Elem(), before})
+		args[i] = SV{T: r}
+	}
+	res := f.applyContract0(in, ct, fn, sig, args, cc, st, g, key)
+	for _, b := range cbs {
+		s := b.t.Underlying().(*types.Struct)
+		changed := false
+		for k := 0; k < s.NumFields(); k++ {
+			if st.get(c.fieldHeap(b.t, k)) != b.before[k] {
+				changed = true
+			}
+		}
+		if changed {
+			f.storeAddr(st, b.addr, f.loadStruct(st, b.t, b.ref), g, f.where(in))
+		}
+	}
+	return res
+}
+
+func (f *Frame) applyContract0(in ssa.Instruction, ct *Contract, fn *ssa.Function, sig *types.Signature, args []SV, cc *ssa.CallCommon, st *State, g string, key string) SV {
 	c := f.c()
 	x := f.x
 	x.usedStub[key] = true
@@ -783,9 +843,42 @@ func (f *Frame) applyContract(in ssa.Instruction, ct *Contract, fn *ssa.Function
 				}
 				for _, t := range ts {
 					// a target reached through a nil pointer denotes nothing (writing through it would panic)
-					x.frameCheck(st, t.heap, t.ref, and(g, "(not (= "+t.ref+" 0))"), where)
+					if t.lo != "" {
+						x.frameCheck(st, t.heap, t.ref, and(g, "(not (= "+t.ref+" 0))", c.simplify("(< "+t.lo+" "+t.hi+")")), where, t.lo, t.hi)
+					} else {
+						x.frameCheck(st, t.heap, t.ref, and(g, "(not (= "+t.ref+" 0))"), where)
+					}
 					srt := c.heapSort[t.heap]
 					inner := strings.TrimSuffix(strings.TrimPrefix(srt, "(Array Int "), ")")
+					if t.lo != "" {
+						// only the element window [lo, hi) of the backing array may change
+						cur := sel(st.get(t.heap), t.ref)
+						es := strings.TrimSuffix(strings.TrimPrefix(inner, "(Array Int "), ")")
+						cellT := c.heapCellT[t.heap]
+						var nv string
+						if n, ok := isNum(c.simplify("(- " + t.hi + " " + t.lo + ")")); ok && n <= 64 {
+							nv = cur
+							for k := int64(0); k < n; k++ {
+								ev := c.freshConst("asge", es)
+								if cellT != nil {
+									c.assert(c.wf(cellT, ev, st.wm()))
+								}
+								nv = sto(nv, c.simplify(fmt.Sprintf("(+ %s %d)", t.lo, k)), ev)
+							}
+						} else {
+							nv = c.freshConst("asg", inner)
+							c.quant = true
+							body := "(= (select " + nv + " k!) (select " + cur + " k!))"
+							c.assert("(forall ((k! Int)) (! (=> (or (< k! " + t.lo + ") (>= k! " + t.hi + ")) " + body + ") :pattern ((select " + nv + " k!))))")
+							if cellT != nil {
+								if w := c.wf(cellT, "(select "+nv+" k!)", st.wm()); w != "true" {
+									c.assert("(forall ((k! Int)) (! " + w + " :pattern ((select " + nv + " k!))))")
+								}
+							}
+						}
+						st.set(t.heap, ite("(= "+t.ref+" 0)", st.get(t.heap), sto(st.get(t.heap), t.ref, nv)))
+						continue
+					}
 					nv := c.freshConst("asg", inner)
 					if ct := c.heapCellT[t.heap]; ct != nil {
 						if c.heapDims[t.heap] == 1 {
@@ -1040,7 +1133,7 @@ func (f *Frame) copyOp(in ssa.Instruction, cc *ssa.CallCommon, args []SV, st *St
 			}
 		}
 	}
-	f.x.frameCheck(st, eh, c.sRef(dst), and(g, c.simplify("(> "+n+" 0)")), f.where(in))
+	f.x.frameCheck(st, eh, c.sRef(dst), and(g, c.simplify("(> "+n+" 0)")), f.where(in), c.sOff(dst), c.simplify("(+ "+c.sOff(dst)+" "+n+")"))
 	na := f.copyRange(sel(st.get(eh), c.sRef(dst)), c.sOff(dst), srcArr, srcOff, n, c.sortOf(elem), g)
 	st.set(eh, ite(c.simplify("(> "+n+" 0)"), sto(st.get(eh), c.sRef(dst), na), st.get(eh)))
 	f.x.syncViews(st)
@@ -1085,7 +1178,7 @@ func (f *Frame) appendOp(in ssa.Instruction, cc *ssa.CallCommon, args []SV, st *
 	c.assert("(<= " + ncap + " (+ (* 2 " + n + ") 1024))")
 	base := f.copyRange(c.zero(types.NewArray(elem, 0)), "0", sel(st.get(eh), "(s.ref "+s+")"), "(s.off "+s+")", sLen, es, and(g, not(fits)))
 	frArr := f.copyRange(base, sLen, tArr, tOff, tLen, es, and(g, not(fits)))
-	f.x.frameCheck(st, eh, "(s.ref "+s+")", and(g, fits, "(> "+tLen+" 0)"), f.where(in))
+	f.x.frameCheck(st, eh, "(s.ref "+s+")", and(g, fits, "(> "+tLen+" 0)"), f.where(in), "(+ (s.off "+s+") "+sLen+")", "(+ (s.off "+s+") "+sLen+" "+tLen+")")
 	// amortised cost model of append: growing by doubling allocates at most ~3x the bytes appended in total
 	f.x.chargeAllocBytes(st, g, fmt.Sprintf("(* %d %s)", 3*maxi(1, types.SizesFor("gc", "amd64").Sizeof(elem)), tLen))
 	st.set(eh, ite(fits, sto(st.get(eh), "(s.ref "+s+")", inArr), sto(st.get(eh), r, frArr)))
